@@ -17,9 +17,14 @@ NAMES = ["a", "b", "c", "d", "e", "-"]
 FNAMES = ["fa", "fb", "-"]
 SIG_MUT = ["sname", "sfile", "ssetmh", "saddseq", "saddprot"]
 SIG_COPY = ["stomut", "stofrozen", "scopy", "spickle", "supdflat", "supdname", "sgatherinit"]
-SIG_RO = ["md5", "eq", "sim", "save", "pickle", "copies", "mhmut", "compare"]
+SIG_RO = ["md5", "eq", "sim", "save", "pickle", "copies", "mhmut", "compare", "insertinto", "insertinto"]
 VIEW_RO_Q = ["search", "searchc", "prefetch", "best", "gather", "gatheri"]
 VIEW_RO_0 = ["sigs", "locs", "manifest", "picklist"]
+SAVE_ANY = ["saveto0", "saveto1", "saveto2", "saveto3"]
+SAVE_BY_KIND = {"vsbt": ["save", "save", "savefs", "savefs"], "vsbtload": ["save", "savefs"], "vlinear": ["savesig", "savesig"],
+                "vlca": ["lcasave0", "lcasave1"], "vlcaload0": ["lcasave0", "lcasave1"],
+                "vzip1": ["mfsave0", "mfsave1"], "vmulti": ["mfsave0", "mfsave1"], "vstandalone": ["mfsave0", "mfsave1"],
+                "vsqlite": ["mfsave0", "mfsave1"], "vlcaload1": ["mfsave0", "mfsave1"]}
 
 
 def _seq(rng):
@@ -62,8 +67,10 @@ def gen_obj_case(rng, flavour):
     pool = sorted({rng.randint(0, M) for _ in range(rng.randint(4, 10))} | {0, M})
     hv = lambda: rng.choice(pool)
     nh = rng.randint(2, 4)
+    tracks = {}
     for h in range(nh):
-        tr = rng.random() < 0.5
+        tr = rng.random() < (0.25 if flavour == "disk" else 0.5)
+        tracks[str(h)] = tr
         lines.append(f"new {h} 0 {scaled} {int(tr)}")
         k = rng.choice([0, 1, 2, 3, 4, 5, 6, 6])
         if k:
@@ -115,7 +122,7 @@ def gen_obj_case(rng, flavour):
                 ns += 1
     S = lambda: rng.choice(sigs)
 
-    def some_sigs(lo, hi, distinct=False, named=False):
+    def some_sigs(lo, hi, distinct=False, named=False, flat=False):
         k = rng.randint(lo, min(hi, len(sigs)))
         if not distinct and not named:
             return " ".join(map(str, rng.sample(sigs, k)))
@@ -129,6 +136,8 @@ def gen_obj_case(rng, flavour):
                 if distinct and ck.get(x) in keys:
                     continue
                 if named and (nmof.get(x, "-") == "-" or nmof.get(x) in names):
+                    continue
+                if flat and ck.get(x, ("u",))[0] == "mh" and tracks.get(ck[x][1], False):
                     continue
             out.append(x)
             keys.add(ck.get(x))
@@ -188,6 +197,8 @@ def gen_obj_case(rng, flavour):
         kinds = ["vlinear", "vlinear", "vlazy", "vlazy", "vzip0", "vzip1", "vmulti", "vmulti", "vstandalone"]
         if flavour == "inplace":
             kinds = ["vsbt", "vsbt", "vlca", "vlca", "vlinear", "vzip1"]
+        if flavour == "disk":
+            kinds = ["vsbtload", "vsbtload", "vsbtload", "vsqlite", "vsqlite", "vlcaload0", "vlcaload1", "vlcaload1", "vsbt", "vlinear"]
         k = rng.choice(kinds)
         lin = [v for v, kk in views if kk == "vlinear"]
         if k in ("vlazy", "vmulti") and not lin:
@@ -200,6 +211,12 @@ def gen_obj_case(rng, flavour):
             return f"vmulti {nv - 1} " + " ".join(map(str, rng.sample(lin, rng.randint(1, min(2, len(lin))))))
         if k in ("vzip0", "vzip1"):
             return f"vzip {nv - 1} {k[-1]} {some_sigs(1, 4, distinct=True)}"
+        if k == "vsbtload":
+            return f"vsbtload {nv - 1} {rng.randint(0, 1)} {rng.choice([0, 1, 1, 2])} {some_sigs(1, 4, distinct=True)}"
+        if k == "vsqlite":
+            return f"vsqlite {nv - 1} {some_sigs(1, 4, distinct=True, flat=True)}"
+        if k in ("vlcaload0", "vlcaload1"):
+            return f"vlcaload {nv - 1} {k[-1]} {some_sigs(1, 4, named=True)}"
         if k == "vstandalone":
             return f"vstandalone {nv - 1} {some_sigs(1, 4, distinct=True)}"
         if k == "vlca":
@@ -215,18 +232,33 @@ def gen_obj_case(rng, flavour):
         if r < 0.38:
             nv += 1
             views.append((nv - 1, k if k not in ("vzip0", "vzip1") else k))
-            if k in ("vsbt", "vlca") and rng.random() < 0.6:
+            if k in ("vsbt", "vlca", "vsbtload", "vlcaload0") and rng.random() < 0.6:
                 return f"vselpick {nv - 1} {v} " + " ".join(rng.sample([n for n in NAMES if n != "-"], rng.randint(0, 3)))
             return f"vsel {nv - 1} {v} {_kws(rng, scaled)}"
         if r < 0.5:
+            if k in ("vsbtload", "vsqlite"):       # insertion into these is outside the modelled domain
+                return f"vro {rng.choice(VIEW_RO_Q)} {v} {S()}"
             return f"vinsert {v} {S()}"
         if r < 0.62:
+            cands = [x for x, kk in views if kk not in ("vsbt", "vlca", "vsbtload", "vlcaload0", "vlcaload1")]
+            if not cands:
+                return f"vro {rng.choice(VIEW_RO_Q)} {v} {S()}"
             ns += 1
             sigs.append(ns - 1)
-            cands = [x for x, kk in views if kk not in ("vsbt", "vlca")] or [v]
             return f"vget {ns - 1} {rng.choice(cands)} {rng.choice([0, 0, 0, 0, 1, 1, 2])}"
         if r < 0.85:
-            if rng.random() < 0.45:
+            rr = rng.random()
+            if rr < 0.04:
+                return f"sro insertinto {S()}" + (f" {S()}" if rng.random() < 0.5 else "")
+            if rr < 0.3:
+                # a save is a read-only call on the collection it is given
+                nm = rng.choice(SAVE_BY_KIND.get(k, []) * 2 + SAVE_ANY)
+                first = f"vro {nm} {v}" + (f" {S()}" if rng.random() < 0.7 else "")
+                if k in ("vlca", "vlcaload0", "vsbt", "vlinear") and rng.random() < 0.5:
+                    # a save must leave the collection usable: insert into it right afterwards
+                    return [first, f"vinsert {v} {S()}", f"vro sigs {v}"]
+                return first
+            if rr < 0.55:
                 return f"vro {rng.choice(VIEW_RO_0)} {v}"
             return f"vro {rng.choice(VIEW_RO_Q)} {v} {S()}"
         return sig_op()
@@ -236,7 +268,9 @@ def gen_obj_case(rng, flavour):
         for _ in range(rng.randint(1, 3)):
             lines.append(new_view())
     for _ in range(n_ops):
-        lines.append(track(sig_op() if flavour == "sigs" else view_op()))
+        nxt_ops = sig_op() if flavour == "sigs" else view_op()
+        for ln in ([nxt_ops] if isinstance(nxt_ops, str) else nxt_ops):
+            lines.append(track(ln))
     if flavour == "sigs":
         # the pickle-protocol entry point called on an existing object: here only on signatures the generator knows
         # to be mutable (created by snew / stomut / spickle / sgatherinit and never frozen since).  On a FROZEN
@@ -263,7 +297,7 @@ def gen_obj_case(rng, flavour):
 
 
 def gen_case(rng, flavour):
-    if flavour in ("sigs", "views", "inplace"):
+    if flavour in ("sigs", "views", "inplace", "disk"):
         return gen_obj_case(rng, flavour)
     return gen_mh_case(rng, flavour)
 
@@ -332,12 +366,13 @@ def gen_mh_case(rng, flavour):
 
 MH_RESULT = {"tomut", "tofrozen", "copy", "flat", "down", "sigmh", "plus", "inter", "new", "smh", "scg"}
 SIG_RESULT = {"snew", "stomut", "stofrozen", "scopy", "spickle", "supdflat", "supdname", "sgatherinit", "vget"}
-VIEW_RESULT = {"vlinear", "vlazy", "vzip", "vmulti", "vstandalone", "vsbt", "vlca", "vsel", "vselpick"}
+VIEW_RESULT = {"vlinear", "vlazy", "vzip", "vmulti", "vstandalone", "vsbt", "vlca", "vsel", "vselpick",
+               "vsbtload", "vsqlite", "vlcaload"}
 MH_RECV = {"add", "addab", "addmany", "rm", "clear", "merge", "setab", "settrack", "intofrozen"}
 SIG_RECV = {"ssetmh", "sname", "sfile", "saddseq", "saddprot", "ssetstate", "sintofrozen"}
 SIG_FRESH = {"stomut", "spickle", "supdflat", "supdname", "sgatherinit"}
-INPLACE = {"sbt", "lca"}
-DISK = {"zipnm", "zipm", "standalone"}
+INPLACE = {"sbt", "lca", "sbtdisk"}
+DISK = {"zipnm", "zipm", "standalone", "sqlite", "lcasql"}
 
 
 def parse(obs):
@@ -387,6 +422,10 @@ def oracle(case, impl):
             elif res.startswith("err InputModified"):
                 bad.append((idx, f"C15:input-modified:{o}:" + w[1] if o != "ro" else "C15:input-modified:" + w[1],
                             f"`{op}` modified a signature passed to it"))
+            elif res.startswith("err ViewChanged"):
+                kind = prev["v"].get(int(w[2]), (None, "?", None))[1] if len(w) > 2 and w[2].isdigit() else "?"
+                bad.append((idx, f"C15:view-changed:{kind}-save",
+                            f"`{op}`: after the save the saved {kind} collection no longer answers what it answered before"))
             elif res.startswith("err"):
                 bad.append((idx, "C15:readonly-raises:" + w[1] + ":" + res[4:], f"`{op}` raised {res[4:]} (second invocation or internal state damage)"))
         rebound = None
